@@ -15,6 +15,7 @@ mod c15;
 mod c16;
 mod c17;
 mod c18;
+mod c19;
 mod common;
 mod selftest;
 
@@ -94,6 +95,7 @@ fn main() {
         "C15" => c15::run(&tier),
         "C16" => c16::run(&tier),
         "C17" => c17::run(&tier),
+        "C19" => c19::run(&tier),
         "C18" => match replay {
             Some(p) => common::replay_explorer(prop, &p, c18::specs(&tier), &c18::C18),
             None => {
